@@ -55,6 +55,7 @@ type Ctx struct {
 	heapDims  map[string]int        // 1: Array Int T, 2: Array Int (Array Int T) / map
 	heapKeyS  map[string]string     // second-dimension index sort (for element / map heaps)
 	heapReg   map[string]func(*Ctx) // how to (re-)register a heap name in another context
+	sweepFilter map[string]map[string]bool
 }
 
 func newCtx(P *Program) *Ctx {
@@ -133,8 +134,23 @@ func (c *Ctx) note(format string, a ...any) {
 }
 
 // oblige records an obligation and then assumes its goal (assert-then-assume).
+var sweepKinds = map[string]bool{"nil": true, "index": true, "slice": true, "div": true, "nilinvoke": true, "nilmap": true,
+	"typeassert": true, "panic": true, "makeslice": true, "nilcall": true, "nowrap": true, "exact": true}
+
 func (c *Ctx) oblige(kind string, tags []string, guard, goal, where, detail string) {
 	goal = c.simplify(goal)
+	if sweepKinds[kind] && c.sweepFilter != nil && len(tags) > 0 {
+		var kept []string
+		for _, t := range tags {
+			if ks, ok := c.sweepFilter[t]; !ok || ks[kind] {
+				kept = append(kept, t)
+			}
+		}
+		if len(kept) == 0 {
+			kept = []string{"-"} // claimed by no property; still checked-then-assumed for soundness of later facts
+		}
+		tags = kept
+	}
 	if goal == "true" || guard == "false" {
 		return
 	}
@@ -536,7 +552,7 @@ func (c *Ctx) wfDepth(t types.Type, v, wm string, depth int) string {
 	case *types.Slice:
 		return fmt.Sprintf("(and (<= 0 (s.ref %[1]s)) (< (s.ref %[1]s) %[2]s) (<= 0 (s.off %[1]s)) (<= 0 (s.len %[1]s)) (<= (s.len %[1]s) (s.cap %[1]s)) (<= (s.cap %[1]s) 4611686018427387904) (<= (s.off %[1]s) 4611686018427387904) (=> (= (s.ref %[1]s) 0) (and (= (s.cap %[1]s) 0) (= (s.off %[1]s) 0))))", v, wm)
 	case *types.Interface:
-		return fmt.Sprintf("(and (<= 0 (i.tid %[1]s)) (<= 0 (i.ref %[1]s)) (< (i.ref %[1]s) %[2]s) (=> (= (i.tid %[1]s) 0) (= (i.ref %[1]s) 0)))", v, wm)
+		return fmt.Sprintf("(and (<= 0 (i.tid %[1]s)) (< (i.ref %[1]s) %[2]s) (=> (= (i.tid %[1]s) 0) (= (i.ref %[1]s) 0)))", v, wm)
 	case *types.Struct:
 		if depth > 2 {
 			return "true"
